@@ -194,3 +194,9 @@ m("c20-e0119-restored", ["C20"], "F1 reverted: both #[from] conversions again",
   [("src/core/error.rs", '    #[cfg_attr(not(feature = "ed25519-dalek"), from)]', "    #[from]")])
 m("c20-v3-public-misses-sha2", ["C20"], "v3_public no longer enables sha2",
   [("Cargo.toml", 'v3_public = ["v3", "public", "core", "p384", "sha2"]', 'v3_public = ["v3", "public", "core", "p384"]')])
+
+# ---- build-profile dependence: the verification exists only where debug assertions are compiled in ---------------------
+m("c04-v4p-verify-only-under-debug-assertions", ["C04", "C03"], "v4.public try_verify checks the signature only `if cfg!(debug_assertions)`: release builds accept any signature",
+  [("src/core/paseto_impl/v4_public.rs", "        verifying_key.verify(&pae, &signature)?;\n", "        if cfg!(debug_assertions) {\n            verifying_key.verify(&pae, &signature)?;\n        }\n")])
+m("c03-v3l-tag-compare-only-under-debug-assertions", ["C03"], "v3.local compares the tag only `if cfg!(debug_assertions)`: release builds never compare it",
+  [("src/core/paseto_impl/v3_local.rs", "        ConstantTimeEquals(tag, tag2)?;", "        if cfg!(debug_assertions) {\n            ConstantTimeEquals(tag, tag2)?;\n        }")])
